@@ -1,0 +1,6 @@
+//go:build !verif
+// +build !verif
+
+package snowflake_server
+
+func vhook(point string, args ...interface{}) {}
